@@ -104,10 +104,15 @@ def create_retry_strategy(
             return RetryDecision.no_retry()
 
         # Calculate delay with exponential backoff
-        base_delay: float = min(
-            config.initial_delay_seconds * (config.backoff_rate ** (attempts_made - 1)),
-            config.max_delay_seconds,
-        )
+        try:
+            uncapped_delay: float = config.initial_delay_seconds * (
+                config.backoff_rate ** (attempts_made - 1)
+            )
+        except OverflowError:
+            # a float backoff_rate overflows for large attempt numbers (2.0 ** 1024);
+            # the delay is capped at max_delay anyway
+            uncapped_delay = config.max_delay_seconds
+        base_delay: float = min(uncapped_delay, config.max_delay_seconds)
         # Apply jitter to get final delay
         delay_with_jitter: float = config.jitter_strategy.apply_jitter(base_delay)
         # Round up and ensure minimum of 1 second
